@@ -9,6 +9,9 @@ import (
 	"fmt"
 
 	"github.com/bluenviron/mediacommon/v2/pkg/codecs/ac3"
+	"github.com/bluenviron/mediacommon/v2/pkg/codecs/av1"
+	"github.com/bluenviron/mediacommon/v2/pkg/codecs/h264"
+	"github.com/bluenviron/mediacommon/v2/pkg/codecs/h265"
 	"github.com/bluenviron/mediacommon/v2/pkg/codecs/jpeg"
 	"github.com/bluenviron/mediacommon/v2/pkg/codecs/mpeg1audio"
 	"github.com/pion/rtp"
@@ -91,6 +94,9 @@ type Codec struct {
 	Cap         int // documented/structural maximum frame size the decoder may retain (C08); 0 = stateless
 	CapDoc      string
 	HeaderSizes []int // per-packet header sizes the format uses (for threshold enumeration)
+	// UnitCountLimit: the decoder refuses frames with more units than this (0 = no such limit);
+	// C07 builds frames with more than half of it so that two damaged frames reach the limit path.
+	UnitCountLimit int
 
 	Make   func(sizes []int, seed int) (Frame, bool)
 	NewEnc func(limit int, seq uint16, ssrc uint32) (Enc, error)
@@ -153,7 +159,7 @@ func All() []*Codec {
 
 	// ---------------- H264
 	cs = append(cs, &Codec{
-		Name: "h264", Base: "h264", MinLimit: 4, MaxUnits: 4, MinUnit: 1, Fragments: true, Video: true, MarkerLast: true,
+		Name: "h264", Base: "h264", MinLimit: 4, MaxUnits: 4, MinUnit: 1, Fragments: true, Video: true, MarkerLast: true, UnitCountLimit: h264.MaxNALUsPerAccessUnit,
 		Stateful: true, PayloadType: 96, Cap: 8 << 20, CapDoc: "h264.MaxAccessUnitSize", HeaderSizes: []int{0, 1, 2, 3},
 		Make: func(sizes []int, seed int) (Frame, bool) {
 			if !exactSizes(1)(sizes) {
@@ -180,7 +186,7 @@ func All() []*Codec {
 
 	// ---------------- H265
 	cs = append(cs, &Codec{
-		Name: "h265", Base: "h265", MinLimit: 5, MaxUnits: 4, MinUnit: 2, Fragments: true, Video: true, MarkerLast: true,
+		Name: "h265", Base: "h265", MinLimit: 5, MaxUnits: 4, MinUnit: 2, Fragments: true, Video: true, MarkerLast: true, UnitCountLimit: h265.MaxNALUsPerAccessUnit,
 		Stateful: true, PayloadType: 96, Cap: 8 << 20, CapDoc: "h265.MaxAccessUnitSize", HeaderSizes: []int{0, 2, 3, 4},
 		Make: func(sizes []int, seed int) (Frame, bool) {
 			if !exactSizes(2)(sizes) {
@@ -208,7 +214,7 @@ func All() []*Codec {
 
 	// ---------------- AV1
 	cs = append(cs, &Codec{
-		Name: "av1", Base: "av1", MinLimit: 4, MaxUnits: 4, MinUnit: 1, Fragments: true, Video: true, MarkerLast: true,
+		Name: "av1", Base: "av1", MinLimit: 4, MaxUnits: 4, MinUnit: 1, Fragments: true, Video: true, MarkerLast: true, UnitCountLimit: av1.MaxOBUsPerTemporalUnit,
 		Stateful: true, PayloadType: 96, Cap: 3 << 20, CapDoc: "av1.MaxTemporalUnitSize", HeaderSizes: []int{1, 2, 3},
 		Make: func(sizes []int, seed int) (Frame, bool) {
 			if !exactSizes(1)(sizes) {
